@@ -9,6 +9,7 @@ import (
 
 	"go.opentelemetry.io/collector/pdata/pcommon"
 	"go.opentelemetry.io/collector/pdata/pmetric"
+	"go.opentelemetry.io/collector/pdata/ptrace"
 )
 
 // Scripted witnesses (corpus): the reading-time defects and the seeded-change targets, each with a
@@ -354,6 +355,51 @@ func w7scripts() []func() []string {
 			bin[0] = 7
 			if w7raw(bs.AsRaw()) != "[1 2 3]" {
 				v = append(v, "sig=C07/fromraw/mutating-the-raw-input-changed-the-value kind=ByteSlice got="+w7raw(bs.AsRaw()))
+			}
+			return v
+		},
+		func() (v []string) { // pcommon.TraceState (hand-written CopyTo / MoveTo / FromRaw): copy, move, from-raw, read-only
+			a, b := pcommon.NewTraceState(), pcommon.NewTraceState()
+			a.FromRaw("a=b")
+			b.FromRaw("old=1")
+			a.CopyTo(b)
+			a.FromRaw("c=d")
+			if b.AsRaw() != "a=b" || a.AsRaw() != "c=d" {
+				v = append(v, "sig=C07/tracestate/copy-not-independent got="+a.AsRaw()+"|"+b.AsRaw())
+			}
+			a.MoveTo(b)
+			if b.AsRaw() != "c=d" || a.AsRaw() != "" {
+				v = append(v, "sig=C07/tracestate/move-does-not-transfer-and-empty got="+a.AsRaw()+"|"+b.AsRaw())
+			}
+			a.FromRaw("e=f")
+			if b.AsRaw() != "c=d" {
+				v = append(v, "sig=C07/tracestate/refilling-moved-from-source-changed-destination")
+			}
+			td := ptrace.NewTraces()
+			sp := td.ResourceSpans().AppendEmpty().ScopeSpans().AppendEmpty().Spans().AppendEmpty()
+			sp.TraceState().FromRaw("ro=1")
+			lk := sp.Links().AppendEmpty()
+			lk.TraceState().FromRaw("ro=2")
+			td.MarkReadOnly()
+			rw := pcommon.NewTraceState()
+			rw.FromRaw("rw=1")
+			for name, f := range map[string]func(){
+				"span-fromraw":    func() { sp.TraceState().FromRaw("x=y") },
+				"link-fromraw":    func() { lk.TraceState().FromRaw("x=y") },
+				"move-from-ro":    func() { sp.TraceState().MoveTo(rw) },
+				"move-into-ro":    func() { rw.MoveTo(lk.TraceState()) },
+				"copy-into-ro":    func() { rw.CopyTo(sp.TraceState()) },
+				"span-copy-to-ro": func() { ptrace.NewSpan().CopyTo(sp) },
+			} {
+				if !w7panics(f) {
+					v = append(v, "sig=C07/tracestate/mutator-on-read-only-did-not-panic call="+name)
+				}
+			}
+			if sp.TraceState().AsRaw() != "ro=1" || lk.TraceState().AsRaw() != "ro=2" || rw.AsRaw() != "rw=1" {
+				v = append(v, "sig=C07/tracestate/panicking-call-changed-something got="+sp.TraceState().AsRaw()+"|"+lk.TraceState().AsRaw()+"|"+rw.AsRaw())
+			}
+			if w7panics(func() { sp.TraceState().CopyTo(rw) }) || rw.AsRaw() != "ro=1" {
+				v = append(v, "sig=C07/tracestate/copy-from-read-only-failed")
 			}
 			return v
 		},
